@@ -14,6 +14,67 @@ let h_minify (a : string array) : string =
   | OOB -> "MODEL_OOB"
   | OutOfFuel -> "MODEL_OUTOFFUEL"
 
+(* getptr <cs> <hexptr> <tree> -> P<path> | NULL   (C15); appends the RFC 6901 reference verdict *)
+let h_getptr (a : string array) : string =
+  let cs = a.(1) = "1" in let p = bytes_of_hex a.(2) in
+  let pos = ref 3 in let root = parse_node a pos in
+  let r = if cs then cJSONUtils_GetPointerCaseSensitive root p else cJSONUtils_GetPointer root p in
+  let spec = if cs then (if rfc6901 root p = r then "" else " SPECDIFF") else "" in
+  path_str r ^ spec
+
+(* findptr <P-path> <tree> -> <hex pointer> <path resolved back> *)
+let h_findptr (a : string array) : string =
+  let target = path_of_str a.(1) in
+  let pos = ref 2 in let root = parse_node a pos in
+  match cJSONUtils_FindPointerFromObjectTo root target with
+  | None -> "NULL"
+  | Some p -> hex_of_bytes p ^ " " ^ path_str (cJSONUtils_GetPointerCaseSensitive root p)
+
+(* compare <cs> <same> <treeA|NULL> <treeB|NULL> -> <a?b> <b?a> U *)
+let h_compare (a : string array) : string =
+  let cs = a.(1) = "1" in let same = a.(2) = "1" in
+  let pos = ref 3 in
+  let x = parse_node_or_null a pos in
+  let y = if same then x else parse_node_or_null a pos in
+  let s = function Some true -> "1" | Some false -> "0" | None -> "MODEL_OUTOFFUEL" in
+  s (cJSON_Compare x y same cs) ^ " " ^ s (cJSON_Compare y x same cs) ^ " U"
+
+(* parse <entry> <rnt> <n> <hexcontent> [failk] -> <tree|NULL> end=.. err=.. live=.. reqs=..  *)
+let h_parse (a : string array) : string =
+  let entry = a.(1).[0] in let rnt = a.(2) = "1" in let len = int_of_string a.(3) in
+  let content = bytes_of_hex a.(4) in
+  let failk = if Array.length a > 5 then int_of_string a.(5) else 0 in
+  let with_end = (entry = 'L' || entry = 'O') in
+  let rnt' = (match entry with 'W' | 'P' -> false | _ -> rnt) in
+  let r = (match entry with
+    | 'L' | 'l' | 'W' -> run_parse_with_length_opts content (nat_of_int len) rnt' (nat_of_int failk)
+    | _ -> run_parse_with_opts content rnt' (nat_of_int failk)) in
+  match r with
+  | OOB -> "MODEL_OOB" | OutOfFuel -> "MODEL_OUTOFFUEL"
+  | Ok pr ->
+      let t = (match pr.pr_tree with None -> "NULL" | Some n -> dump_node n) in
+      let e = (match pr.pr_end with Some k when with_end -> string_of_int (int_of_nat k) | _ -> "-") in
+      let er = (match pr.pr_error with None -> "NULL" | Some k -> string_of_int (int_of_nat k)) in
+      let rep = (match pr.pr_tree, pr.pr_end with
+        | Some n, Some k when with_end ->
+            let k' = int_of_nat k in
+            let prefix = List.filteri (fun i _ -> i < k') content in
+            (match run_parse_with_length_opts prefix (nat_of_int k') false O with
+             | Ok pr2 -> (match pr2.pr_tree with Some n2 -> if n2 = n then " reparse=same" else " reparse=DIFF" | None -> " reparse=NULL")
+             | _ -> " reparse=MODEL_OOB")
+        | _ -> "") in
+      (* the list-level specification (ParseSpec.text_l) on the same bytes, when no allocation fails *)
+      let spec = (if failk <> 0 || List.length content > 4000 then "" else
+        let n = (match entry with 'L' | 'l' | 'W' -> len | _ ->
+                   (let rec z i = function [] -> i | c :: r -> if c = Z0 then i + 1 else z (i + 1) r in z 0 content)) in
+        (match run_text_l content (nat_of_int n) rnt', pr.pr_tree, pr.pr_end with
+         | None, None, _ -> ""
+         | Some (t1, e1), Some t2, Some e2 -> if t1 = t2 && e1 = e2 then "" else " SPECDIFF"
+         | _, _, _ -> " SPECDIFF")) in
+      Printf.sprintf "%s end=%s err=%s live=%d reqs=%d%s%s" t e er (int_of_z pr.pr_live) (int_of_nat pr.pr_requests) rep spec
+
 let handlers : (string * (string array -> string)) list = [
+  ("parse", h_parse);
+  ("getptr", h_getptr); ("findptr", h_findptr); ("compare", h_compare);
   ("minify", h_minify);
 ]
